@@ -145,6 +145,7 @@ func runSyncer(s *core.Sim, tier string, liveness bool) RunInfo {
 		}
 		return w.NetHead()
 	}
+	restarted := false
 	nops := 6 + s.Tape.Draw("nops", 18)
 	lastStoreHead := uint64(0)
 	var pending []*core.Task
@@ -160,6 +161,21 @@ func runSyncer(s *core.Sim, tier string, liveness bool) RunInfo {
 		}
 		// --- safety oracle
 		w.checkStoreIsHonestChain(why, true)
+		if liveness && w.Disk.Fault == nil && !s.Failed() {
+			// "nothing partial is lost": whatever the getter has delivered for a range request
+			// (a contiguous verified run on top of the header the request named) is stored by the
+			// time the Syncer is idle, whether or not the request after it failed
+			w.G.mu.Lock()
+			served := w.G.MaxServed
+			w.G.mu.Unlock()
+			var sh *H
+			t := s.Go("store-head", func() { _ = w.St.Sync(ctx); sh, _ = w.St.Head(ctx) })
+			s.Settle(30*time.Minute, t)
+			if sh != nil && sh.Height() < served && !restarted {
+				s.Violate("served-headers-lost", nil, "[%s] the getter has delivered headers up to %d in answered range requests but the store head is %d at quiescence ops=%v", why, served, sh.Height(), hist)
+				return false
+			}
+		}
 		if s.Failed() {
 			return false
 		}
@@ -354,6 +370,7 @@ func runSyncer(s *core.Sim, tier string, liveness bool) RunInfo {
 		}
 	}
 	if liveness && s.Tape.Coin("restart-syncer-mid-flight", 1, 4) {
+		restarted = true // (a stopped Syncer may have dropped what it had just been handed)
 		// the Syncer is stopped in the middle of whatever it is doing (gossip being verified, a
 		// sync running, Head() callers waiting) and a new one is started over the same Store: no
 		// hang, no panic, nothing foreign stored, and the new one resumes from the store head
